@@ -28,4 +28,5 @@ PROPS = {
                        dict(T("TestVerifC18", 6000, 50000, th_shards=8), go="go1.26.8", tiers=("thorough",), label="go1.26.8")]),
     "C16": dict(tests=[T("TestVerifC16", 300, 4000, shrinktime="0s", gomaxprocs=[16, 4, 2, 16])]),
     "C17": dict(tests=[T("TestVerifC17", 20000, 150000)]),
+    "C20": dict(tests=[T("TestVerifC20", 400, 6000, shrinktime="0s", gomaxprocs=[16, 4, 2, 16])]),
 }
